@@ -11,6 +11,7 @@ import (
 func init() {
 	vRegister("HarnessC17_required", HarnessC17_required)
 	vRegister("HarnessC17_layers", HarnessC17_layers)
+	vRegister("HarnessC17_listmarkers", HarnessC17_listmarkers)
 	vRegister("HarnessC17_nested", HarnessC17_nested)
 }
 
@@ -173,6 +174,48 @@ func HarnessC17_layers() {
 	docs := p.Documents()
 	vAssert("C17.onedoc", len(docs) == 1)
 	c17Check(docs[0].Data, ".layered")
+}
+
+// HarnessC17_listmarkers: a lower-layer list with up to three entries, any
+// subset of them markers; an upper layer that supplies a list there satisfies
+// ALL of them: the layered document holds the base's other entries followed
+// by the upper layer's, bklr reports nothing for that list, bkl accepts.
+func HarnessC17_listmarkers() {
+	n := 1 + ndChoice(3)
+	l := []any{}
+	kept := []any{}
+	for i := 0; i < n; i++ {
+		if ndChoice(2) == 0 {
+			l = append(l, "$required")
+		} else {
+			e := "s" + string(rune('0'+i))
+			l = append(l, e)
+			kept = append(kept, e)
+		}
+	}
+	nested := ndChoice(2) == 1
+	var base, upper, want map[string]any
+	if nested {
+		base = map[string]any{"a": map[string]any{"l": l}, "k": "s0"}
+		upper = map[string]any{"a": map[string]any{"l": []any{"x"}}}
+		want = map[string]any{"a": map[string]any{"l": append(kept, "x")}, "k": "s0"}
+	} else {
+		base = map[string]any{"l": l, "k": "s0"}
+		upper = map[string]any{"l": []any{"x"}}
+		want = map[string]any{"l": append(kept, "x"), "k": "s0"}
+	}
+	vObserve("base", base)
+	p, _ := bkl.New()
+	bd := bkl.NewDocumentWithData("base", vCopy(base))
+	ud := bkl.NewDocumentWithData("upper", vCopy(upper))
+	ud.AddParents(bd)
+	vAssert("C17.listmarkers.merge", p.MergeDocument(bd) == nil && p.MergeDocument(ud) == nil)
+	docs := p.Documents()
+	vAssert("C17.listmarkers.onedoc", len(docs) == 1)
+	vObserve("layered", docs[0].Data)
+	vAssert("C17.listmarkers.satisfied", vEq(docs[0].Data, want))
+	c17Check(docs[0].Data, ".listmarkers")
+	vCover("listmarkers.checked")
 }
 
 // HarnessC17_nested: a chain of four nested containers, each a map or a list
